@@ -108,3 +108,5 @@ func jsonUnmarshal(raw json.RawMessage, v any) error {
 	}
 	return json.Unmarshal(raw, v)
 }
+
+type jsonRaw = json.RawMessage
